@@ -11,7 +11,7 @@ C string encoder are trusted, not decided.
 """
 import ast
 
-from ..astutil import call_simple_name, dotted, guard_chain, names_in, returns_of, short
+from ..astutil import call_simple_name, dotted, guard_chain, names_in, pm, pmall, returns_of, short
 from ..cfg import cfg_of
 from ..dectable import IntSet, int_cond
 from ..loader import AnalysisError, FunctionInfo, body_walk, norm, walk_no_nested
@@ -60,8 +60,10 @@ def _value_table(stmts, var):
             for y in walk_no_nested(s):
                 if isinstance(y, (ast.Yield, ast.YieldFrom)):
                     v = y.value
+                    # a leading `<buffer> + ` (separator bookkeeping of the list encoder) is not part of the value's text
+                    if isinstance(v, ast.BinOp) and isinstance(v.op, ast.Add) and isinstance(v.left, ast.Name):
+                        v = v.right
                     txt = norm(v)
-                    txt = txt.replace("buf + ", "")
                     acts.append(("yield from " if isinstance(y, ast.YieldFrom) else "yield ") + txt)
         rows.append((label, tuple(acts)))
         if len(cur.orelse) == 1 and isinstance(cur.orelse[0], ast.If):
@@ -87,17 +89,28 @@ def rule_encoder_siblings(ctx):
     t_list, rest_list = _value_table([s for s in lp.body if isinstance(s, ast.If) and norm(lp.target) in names_in(s.test)],
                                      norm(lp.target))
     fd = inner["_iterencode_dict"]
-    lpd = next(n for n in body_walk(fd.node) if isinstance(n, ast.For) and norm(n.iter) == "items")
+    # the member loop: `for <key>, <value> in <items>` where <items> derives from dct.items()
+    lpd = None
+    for n_ in body_walk(fd.node):
+        if isinstance(n_, ast.For) and isinstance(n_.target, ast.Tuple) and len(n_.target.elts) == 2 and isinstance(n_.iter, ast.Name):
+            defs_ = [a.value for a in body_walk(fd.node) if isinstance(a, ast.Assign) and norm(a.targets[0]) == n_.iter.id]
+            if defs_ and all("%s.items()" % fd.params[0] in norm(d_) for d_ in defs_):
+                lpd = n_
+    if lpd is None:
+        raise AnalysisError("_iterencode_dict: member loop not found")
     vvar = lpd.target.elts[1].id
+    kvar = lpd.target.elts[0].id
     chains = [s for s in lpd.body if isinstance(s, ast.If) and (vvar in names_in(s.test))]
     t_dict, rest_dict = _value_table(chains, vvar)
     fo = inner["_iterencode"]
     t_one, rest_one = _value_table(fo.node.body, fo.params[0])
     scalar = ["isinstance:str", "is:None", "is:True", "is:False", "isinstance:int", "isinstance:float"]
 
-    def scal(t):
-        return [(a, tuple(x.replace(" value", " V").replace("(value)", "(V)").replace("(o)", "(V)") for x in b)) for a, b in t if a in scalar]
-    s1, s2, s3 = scal(t_list), scal(t_dict), scal(t_one)
+    import re as _re
+
+    def scal(t, var):
+        return [(a, tuple(_re.sub(r"(?<![\w.])%s(?!\w)" % _re.escape(var), "V", x) for x in b)) for a, b in t if a in scalar]
+    s1, s2, s3 = scal(t_list, norm(lp.target)), scal(t_dict, vvar), scal(t_one, fo.params[0])
     run.check(s1 == s2 == s3, R, key(rel, "_make_iterencode", "scalar-tables-agree"),
               "the three encoders (list elements, member values, top level) write scalars differently", file=rel,
               line=mk.node.lineno, function=mk.qualname, expected=s1, found=[s2, s3])
@@ -118,14 +131,13 @@ def rule_encoder_siblings(ctx):
     # containers dispatch to the siblings
     for nme, f in inner.items():
         t = norm(f.node)
-        ok = "_iterencode_list(" in t and "_iterencode_dict(" in t and ("isinstance(value, (list, tuple))" in t or "isinstance(o, (list, tuple))" in t) \
-            and ("isinstance(value, dict)" in t or "isinstance(o, dict)" in t)
+        ok = "_iterencode_list(" in t and "_iterencode_dict(" in t and pmall(t, "isinstance($v, (list, tuple))", "isinstance($v, dict)") is not None
         run.check(ok, R, key(rel, nme, "container-dispatch"), "lists/tuples and dicts are not handed to the container encoders", file=rel,
                   line=f.node.lineno, function=nme, expected="list/tuple -> _iterencode_list, dict -> _iterencode_dict", found="changed")
     # keys: floats/ints through convert2Es6Format, others refused
-    kt = [s for s in lpd.body if isinstance(s, ast.If) and "key" in names_in(s.test)]
+    kt = [s for s in lpd.body if isinstance(s, ast.If) and kvar in names_in(s.test)]
     ktxt = norm(kt[0]) if kt else ""
-    run.check("key = convert2Es6Format(key)" in ktxt and "raise TypeError" in ktxt, R, key(rel, "_iterencode_dict", "key-classes"),
+    run.check("%s = convert2Es6Format(%s)" % (kvar, kvar) in ktxt and "raise TypeError" in ktxt, R, key(rel, "_iterencode_dict", "key-classes"),
               "non-string keys are not normalised/refused", file=rel, line=lpd.lineno, function="_iterencode_dict",
               expected="numbers through convert2Es6Format, other kinds TypeError", found="changed")
     run.floor(R, 20)
@@ -171,8 +183,8 @@ def rule_key_order(ctx):
     # iterencode passes the non-C path settings through
     it = prog.cls(CAN + "::JSONEncoder").methods["iterencode"]
     t = norm(it.node)
-    ok = "_make_iterencode(markers, self.default, _encoder, self.indent, floatstr, self.key_separator, self.item_separator, self.sort_keys, self.skipkeys, _one_shot)" in t \
-        and "_encoder = encode_basestring" in t
+    ok = pmall(t, "$e = encode_basestring", "_make_iterencode($m, self.default, $e, self.indent, $f, self.key_separator, "
+               "self.item_separator, self.sort_keys, self.skipkeys, _one_shot)") is not None
     run.check(ok, R, key(rel, it.qualname, "wiring"), "iterencode() does not wire the settings into the Python encoder", file=rel,
               line=it.node.lineno, function=it.qualname, expected="_make_iterencode(..., self.key_separator, self.item_separator, self.sort_keys, ...)",
               found="changed")
